@@ -481,7 +481,9 @@ static void case_kde(Rng& rng, uint64_t index)
 	mark_nontrivial();
 	Interpolation kde = Perform_KDE(data, x0, x1, bw);
 	double I = kde.Integrate(x0, x1);
-	judge("kde-integrates-to-one-over-its-window", std::fabs(I - 1.0), 1e-5, [&] { return J().d("integral", I); });
+	// the estimate is normalised with the interpolation's own integral: one to rounding of Interpolation::Integrate (eps x height x |x| per piece, 150 pieces)
+	double tolI = 1e-9 + 64 * EPS * 150 * (1 + std::max(std::fabs(x0), std::fabs(x1)) / W);
+	judge("kde-integrates-to-one-over-its-window", std::fabs(I - 1.0), tolI, [&] { return J().d("integral", I); });
 	double mn = INFINITY;
 	for(int m = 0; m <= 1000; m++)
 	{
